@@ -13,11 +13,233 @@ spec fn mc_arcs_listed(m: Map<usize, BTreeSet<usize>>, s: Seq<(usize, usize)>) -
     &&& s.no_duplicates()
 }
 
+
+// ---- proof vocabulary for the two generated loops ----
+
+/// the arc p lies strictly below the bound (bu, bv) in lexicographic order (bounds are ints so that "no bound" is usize::MAX + 1)
+spec fn ma_lt(p: (usize, usize), bu: int, bv: int) -> bool { p.0 < bu || (p.0 == bu && p.1 < bv) }
+
+/// p is stored in the raw field
+spec fn ma_stored(m: Map<usize, BTreeSet<usize>>, p: (usize, usize)) -> bool { m.contains_key(p.0) && m[p.0]@.contains(p.1) }
+
+/// s lists exactly the stored arcs below the bound (bu, bv), strictly ascending
+spec fn ma_pref(m: Map<usize, BTreeSet<usize>>, s: Seq<(usize, usize)>, bu: int, bv: int) -> bool {
+    &&& forall|i: int| 0 <= i < s.len() ==> ma_stored(m, #[trigger] s[i]) && ma_lt(s[i], bu, bv)
+    &&& forall|a: usize, b: usize| m.contains_key(a) && #[trigger] m[a]@.contains(b) && ma_lt((a, b), bu, bv) ==> s.contains((a, b))
+    &&& forall|i: int, j: int| 0 <= i < j < s.len() ==> mc_lex_lt(#[trigger] s[i], #[trigger] s[j])
+}
+
+/// the n-th key of the item sequence of `BTreeMap::iter`, "no bound" past the end
+spec fn ma_kbound(items: Seq<(&usize, &BTreeSet<usize>)>, n: int) -> int {
+    if 0 <= n < items.len() { *items[n].0 as int } else { usize::MAX as int + 1 }
+}
+/// the k-th element of the item sequence of `BTreeSet::iter`, "no bound" past the end
+spec fn ma_vbound(rs: Seq<&usize>, k: int) -> int {
+    if 0 <= k < rs.len() { *rs[k] as int } else { usize::MAX as int + 1 }
+}
+
+spec fn ma_keys_asc(items: Seq<(&usize, &BTreeSet<usize>)>) -> bool {
+    forall|i: int, j: int| 0 <= i < j < items.len() ==> *(#[trigger] items[i]).0 < *(#[trigger] items[j]).0
+}
+spec fn ma_ascending(rs: Seq<&usize>) -> bool {
+    forall|i: int, j: int| 0 <= i < j < rs.len() ==> *(#[trigger] rs[i]) < *(#[trigger] rs[j])
+}
+
+/// meaning of vstd's `increasing_seq` (the promise of `BTreeSet::iter` / `BTreeMap::iter`): strictly ascending
+proof fn lemma_ma_ref_increasing(rs: Seq<&usize>)
+    requires vstd::std_specs::btree::increasing_seq(rs),
+    ensures ma_ascending(rs),
+{
+    broadcast use vstd::laws_cmp::group_laws_cmp;
+    assert(vstd::laws_cmp::obeys_cmp::<&usize>());
+    vstd::std_specs::btree::axiom_increasing_seq_meaning(rs);
+    assert forall|i: int, j: int| 0 <= i < j < rs.len() implies *(#[trigger] rs[i]) < *(#[trigger] rs[j]) by {
+        assert(<&usize as vstd::std_specs::cmp::OrdSpec>::cmp_spec(&rs[i], &rs[j]) is Less);
+    }
+}
+proof fn lemma_ma_increasing(ks: Seq<usize>, i: int, j: int)
+    requires vstd::std_specs::btree::increasing_seq(ks), 0 <= i < j < ks.len(),
+    ensures ks[i] < ks[j],
+{
+    broadcast use vstd::laws_cmp::group_laws_cmp;
+    assert(vstd::laws_cmp::obeys_cmp::<usize>());
+    vstd::std_specs::btree::axiom_increasing_seq_meaning(ks);
+    assert(<usize as vstd::std_specs::cmp::OrdSpec>::cmp_spec(&ks[i], &ks[j]) is Less);
+}
+
+/// the index of a stored element b in the item sequence of its row
+proof fn lemma_ma_row_index(row: Set<usize>, rs: Seq<&usize>, b: usize) -> (j: int)
+    requires rs.unref().to_set() == row, row.contains(b),
+    ensures 0 <= j < rs.len(), *rs[j] == b,
+{
+    assert(rs.unref().to_set().contains(b));
+    assert(rs.unref().contains(b));
+    let j = choose|j: int| 0 <= j < rs.unref().len() && rs.unref()[j] == b;
+    j
+}
+
+/// the index of a key a in the item sequence of the map
+proof fn lemma_ma_key_index(m: Map<usize, BTreeSet<usize>>, items: Seq<(&usize, &BTreeSet<usize>)>, a: usize) -> (j: int)
+    requires map_items_of(m, items), m.contains_key(a),
+    ensures 0 <= j < items.len(), *items[j].0 == a,
+{
+    let p = (&a, &m[a]);
+    assert(items.contains(p));
+    let j = choose|j: int| 0 <= j < items.len() && items[j] == p;
+    j
+}
+
+/// before the first key nothing is stored
+proof fn lemma_ma_start(m: Map<usize, BTreeSet<usize>>, items: Seq<(&usize, &BTreeSet<usize>)>)
+    requires map_items_of(m, items), ma_keys_asc(items),
+    ensures ma_pref(m, Seq::<(usize, usize)>::empty(), ma_kbound(items, 0), 0),
+{
+    let s = Seq::<(usize, usize)>::empty();
+    assert forall|a: usize, b: usize| m.contains_key(a) && #[trigger] m[a]@.contains(b) && ma_lt((a, b), ma_kbound(items, 0), 0) implies s.contains((a, b)) by {
+        let j = lemma_ma_key_index(m, items, a);
+        if j > 0 { assert(*items[0].0 < *items[j].0); }
+    }
+}
+
+/// entering the row of u: nothing of that row lies below its first element
+proof fn lemma_ma_row_start(m: Map<usize, BTreeSet<usize>>, s: Seq<(usize, usize)>, u: usize, rs: Seq<&usize>)
+    requires ma_pref(m, s, u as int, 0), m.contains_key(u), rs.unref().to_set() == m[u]@, ma_ascending(rs),
+    ensures ma_pref(m, s, u as int, ma_vbound(rs, 0)),
+{
+    let c = ma_vbound(rs, 0);
+    assert forall|i: int| 0 <= i < s.len() implies ma_stored(m, #[trigger] s[i]) && ma_lt(s[i], u as int, c) by {
+        assert(ma_lt(s[i], u as int, 0));
+    }
+    assert forall|a: usize, b: usize| m.contains_key(a) && #[trigger] m[a]@.contains(b) && ma_lt((a, b), u as int, c) implies s.contains((a, b)) by {
+        if a == u {
+            let j = lemma_ma_row_index(m[u]@, rs, b);
+            if j > 0 { assert(*rs[0] < *rs[j]); }
+        }
+        assert(ma_lt((a, b), u as int, 0));
+    }
+}
+
+/// one step of the inner loop: pushing (u, rs[k]) moves the bound to rs[k + 1]
+proof fn lemma_ma_push(m: Map<usize, BTreeSet<usize>>, s: Seq<(usize, usize)>, u: usize, rs: Seq<&usize>, k: int)
+    requires
+        m.contains_key(u), rs.unref().to_set() == m[u]@, ma_ascending(rs), 0 <= k < rs.len(),
+        ma_pref(m, s, u as int, ma_vbound(rs, k)),
+    ensures ma_pref(m, s.push((u, *rs[k])), u as int, ma_vbound(rs, k + 1)),
+{
+    let p = (u, *rs[k]);
+    let s2 = s.push(p);
+    let c = ma_vbound(rs, k);
+    let c2 = ma_vbound(rs, k + 1);
+    assert(c == *rs[k]);
+    if k + 1 < rs.len() { assert(*rs[k] < *rs[k + 1]); }
+    assert(c < c2);
+    assert(rs.unref()[k] == *rs[k]);
+    assert(rs.unref().contains(*rs[k]));
+    assert(rs.unref().to_set().contains(*rs[k]));
+    assert(ma_stored(m, p));
+    assert forall|i: int| 0 <= i < s2.len() implies ma_stored(m, #[trigger] s2[i]) && ma_lt(s2[i], u as int, c2) by {
+        if i < s.len() { assert(s2[i] == s[i]); assert(ma_lt(s[i], u as int, c)); } else { assert(s2[i] == p); }
+    }
+    assert forall|a: usize, b: usize| m.contains_key(a) && #[trigger] m[a]@.contains(b) && ma_lt((a, b), u as int, c2) implies s2.contains((a, b)) by {
+        if ma_lt((a, b), u as int, c) {
+            assert(s.contains((a, b)));
+            let i = choose|i: int| 0 <= i < s.len() && s[i] == (a, b);
+            assert(s2[i] == (a, b));
+        } else {
+            let j = lemma_ma_row_index(m[u]@, rs, b);
+            if j < k { assert(*rs[j] < *rs[k]); }
+            if j > k { if j > k + 1 { assert(*rs[k + 1] < *rs[j]); } }
+            assert(j == k);
+            assert(s2[s.len() as int] == (a, b));
+        }
+    }
+    assert forall|i: int, j: int| 0 <= i < j < s2.len() implies mc_lex_lt(#[trigger] s2[i], #[trigger] s2[j]) by {
+        assert(s2[i] == s[i]);
+        if j < s.len() { assert(s2[j] == s[j]); } else { assert(s2[j] == p); assert(ma_lt(s[i], u as int, c)); }
+    }
+}
+
+/// leaving the row of the n-th key: the bound moves to the next key
+proof fn lemma_ma_next_key(m: Map<usize, BTreeSet<usize>>, items: Seq<(&usize, &BTreeSet<usize>)>, n: int, s: Seq<(usize, usize)>)
+    requires
+        map_items_of(m, items), ma_keys_asc(items), 0 <= n < items.len(),
+        ma_pref(m, s, *items[n].0 as int, usize::MAX as int + 1),
+    ensures ma_pref(m, s, ma_kbound(items, n + 1), 0),
+{
+    let u = *items[n].0;
+    let b2 = ma_kbound(items, n + 1);
+    if n + 1 < items.len() { assert(*items[n].0 < *items[n + 1].0); }
+    assert(u < b2);
+    assert forall|i: int| 0 <= i < s.len() implies ma_stored(m, #[trigger] s[i]) && ma_lt(s[i], b2, 0) by {
+        assert(ma_lt(s[i], u as int, usize::MAX as int + 1));
+    }
+    assert forall|a: usize, b: usize| m.contains_key(a) && #[trigger] m[a]@.contains(b) && ma_lt((a, b), b2, 0) implies s.contains((a, b)) by {
+        let j = lemma_ma_key_index(m, items, a);
+        if j > n { if j > n + 1 { assert(*items[n + 1].0 < *items[j].0); } }
+        if j < n { assert(*items[j].0 < *items[n].0); }
+        assert(ma_lt((a, b), u as int, usize::MAX as int + 1));
+    }
+}
+
+/// past the last key: the contract of `arcs()`
+proof fn lemma_ma_final(m: Map<usize, BTreeSet<usize>>, s: Seq<(usize, usize)>, bu: int)
+    requires ma_pref(m, s, bu, 0),
+    ensures bu > usize::MAX ==> mc_arcs_listed(m, s),
+{
+    if bu <= usize::MAX { return; }
+    assert forall|i: int| 0 <= i < s.len() implies m.contains_key((#[trigger] s[i]).0) && m[s[i].0]@.contains(s[i].1) by {
+        assert(ma_stored(m, s[i]));
+    }
+    assert forall|u: usize, v: usize| m.contains_key(u) && #[trigger] m[u]@.contains(v) implies s.contains((u, v)) by {
+        assert(ma_lt((u, v), bu, 0));
+    }
+    assert forall|i: int, j: int| 0 <= i < j < s.len() implies s[i] != s[j] by {
+        assert(mc_lex_lt(s[i], s[j]));
+    }
+}
+
 impl AdjacencyMap {
-    /*@fn impl=AdjacencyMap trait=Arcs name=arcs loopify=Vec fuse eager props=C01,C16,C13
+    /*@fn impl=AdjacencyMap trait=Arcs name=arcs loopify=Vec noisolation fuse eager props=C01,C16,C13
     ensures
         r.obeys_prophetic_iter_laws(),
         r.decrease() is Some,
         mc_arcs_listed(self.arcs@, r.remaining()),
+    @fn_start
+        proof {
+            // `BTreeMap::iter` / `BTreeSet::iter` promise `increasing_seq` of the key projection `f` of the items
+            assert forall|src: Seq<(&usize, &BTreeSet<usize>)>, f: spec_fn((&usize, &BTreeSet<usize>)) -> usize, i: int, j: int|
+                #[trigger] vstd::std_specs::btree::increasing_seq(src.map_values(f)) && 0 <= i < j < src.len()
+                implies f(#[trigger] src[i]) < f(#[trigger] src[j]) by {
+                lemma_ma_increasing(src.map_values(f), i, j);
+            }
+            assert forall|items: Seq<(&usize, &BTreeSet<usize>)>| map_items_of(self.arcs@, items) && #[trigger] ma_keys_asc(items)
+                implies ma_pref(self.arcs@, Seq::<(usize, usize)>::empty(), ma_kbound(items, 0), 0) by { lemma_ma_start(self.arcs@, items); }
+        }
+    @loop 1
+    invariant
+        map_items_of(self.arcs@, it1.seq()),
+        ma_keys_asc(it1.seq()),
+        ma_pref(self.arcs@, vx_acc1@, ma_kbound(it1.seq(), it1.index() as int), 0),
+        it1.index() >= it1.seq().len() ==> mc_arcs_listed(self.arcs@, vx_acc1@),
+    @loop_start 1
+        proof {
+            assert forall|rs: Seq<&usize>| #[trigger] vstd::std_specs::btree::increasing_seq(rs) implies ma_ascending(rs) by { lemma_ma_ref_increasing(rs); }
+            assert forall|rs: Seq<&usize>| rs.unref().to_set() == set@ && #[trigger] ma_ascending(rs)
+                implies ma_pref(self.arcs@, vx_acc1@, *u as int, ma_vbound(rs, 0)) by { lemma_ma_row_start(self.arcs@, vx_acc1@, *u, rs); }
+        }
+    @loop 2
+    invariant
+        self.arcs@.contains_key(*u),
+        self.arcs@[*u] == *set,
+        it2.seq().unref().to_set() == set@,
+        ma_ascending(it2.seq()),
+        ma_pref(self.arcs@, vx_acc1@, *u as int, ma_vbound(it2.seq(), it2.index() as int)),
+    @loop_start 2
+        proof { lemma_ma_push(self.arcs@, vx_acc1@, *u, it2.seq(), it2.index() as int); }
+    @loop_end 1
+        proof {
+            lemma_ma_next_key(self.arcs@, it1.seq(), it1.index() as int, vx_acc1@);
+            lemma_ma_final(self.arcs@, vx_acc1@, ma_kbound(it1.seq(), it1.index() as int + 1));
+        }
     @*/
 }
